@@ -308,7 +308,7 @@ class SecopClient(ProxyClient):
     _rxthread = None
     _txthread = None
     _connthread = None
-    _reconnecting = ()  # the threads running _reconnect
+    _reconnecting = {}  # the threads running _reconnect, with their cancel events
     _cancel_reconnect = None  # event telling the reconnect thread to stop
     disconnect_time = 0  # time of last disconnect
     secop_version = ''
@@ -341,7 +341,7 @@ class SecopClient(ProxyClient):
         # (not self._lock: connect() holds that while waiting for a reply)
         self._request_lock = RLock()
         self._shutdown = Event()
-        self._reconnecting = set()
+        self._reconnecting = {}
         self.cleanup = []
         self.register_callback(None, self.handleError)
 
@@ -582,7 +582,7 @@ class SecopClient(ProxyClient):
         cancel = cancel or Event()
         # there might be several of us: each broken connection starts one
         me = current_thread()
-        self._reconnecting.add(me)
+        self._reconnecting[me] = cancel
         while not (self._shutdown.is_set() or cancel.is_set()):
             try:
                 self.connect()
@@ -606,7 +606,7 @@ class SecopClient(ProxyClient):
                     self._shutdown.wait(self.reconnect_timeout)
                 else:
                     self._shutdown.wait(1)
-        self._reconnecting.discard(me)
+        self._reconnecting.pop(me, None)
         if self._connthread == me:
             self._connthread = None
 
@@ -625,6 +625,12 @@ class SecopClient(ProxyClient):
                     cancel.set()
                 connthread.join()
                 self._connthread = None
+            # each broken connection starts a reconnect thread: there may be older ones.
+            # one of them might be about to establish a connection
+            for thread, cancel in list(self._reconnecting.items()):
+                if thread != current_thread():
+                    cancel.set()
+                    thread.join()
         self.disconnect_time = time.time()
         try:  # make sure txq does not block
             while not self.txq.empty():
